@@ -39,6 +39,7 @@ import Midgard.Proofs.KeplerInverse
 import Midgard.Proofs.PosCacheProofs
 import Midgard.Model.Kepler
 import Midgard.Model.PosCache
+import Midgard.Generated.KeplerShape
 
 namespace Midgard.Props.C07
 open Midgard.Geo
@@ -402,6 +403,43 @@ theorem source_trs2kepler (GM : ℝ) (w : V6 ℝ) :
        let omega0 := s.2.2.2.2.1
        (⟨s.1, s.2.1, s.2.2.1, s.2.2.2.1, if omega0 < 0 then omega0 + (1 + 1) * Trig.pi else omega0, s.2.2.2.2.2⟩ : Kep ℝ)) := by
   src_tie [trs2kepler, Src.trs2keplerSrc]
+/-- the two `np.einsum` contractions of `trs2kepler` (one state: `"i, i"`; array: `"ij, ij->i"`, one row), expanded
+from their subscripts by `translator/extract_kepler.py`, are the model's `r · v` -/
+theorem source_einsum (p v : V3 ℝ) :
+    KepSrc.einsumStateSrc p v = V3.dot p v ∧ KepSrc.einsumRowSrc p v = V3.dot p v := by
+  refine ⟨?_, ?_⟩ <;> simp only [KepSrc.einsumStateSrc, KepSrc.einsumRowSrc, V3.dot]
+
+/-- the `omega` wrap as read from the source — the scalar branch `if omega < 0: omega += 2 * np.pi` and one element of
+the mask assignment `omega[omega < 0] += 2 * np.pi` — is the wrap of the model -/
+theorem source_omega_wrap (omega : ℝ) :
+    KepSrc.omegaWrapScalarSrc omega = (if omega < 0 then omega + (1 + 1) * Trig.pi else omega) ∧
+    KepSrc.omegaWrapMaskSrc omega = (if omega < 0 then omega + (1 + 1) * Trig.pi else omega) := by
+  refine ⟨?_, ?_⟩ <;> simp only [KepSrc.omegaWrapScalarSrc, KepSrc.omegaWrapMaskSrc] <;> norm_num
+
+/-- `PQW @ column` written out from the `@` of the source and the `hstack` order are the model's `mulVec` pair -/
+theorem source_assemble (m : M3 ℝ) (r v : V3 ℝ) : KepSrc.assembleSrc m r v = ⟨m.mulVec r, m.mulVec v⟩ := by
+  simp only [KepSrc.assembleSrc, KepSrc.rotateSrc, M3.mulVec, V3.dot]
+
+/-- **`trs2kepler` of the model is the source, end to end**: arithmetic (`extract_exprs.py`), the einsum contraction
+and the `omega` wrap (`extract_kepler.py`); what stays hand-modelled is `nputil.norm`, `np.cross`,
+`nputil.unit_vector` and `np.stack(...).T` (the order of the six outputs is read by `extract_exprs.py`) -/
+theorem source_trs2kepler_full (GM : ℝ) (w : V6 ℝ) :
+    trs2kepler GM w =
+      (let h := V3.cross w.p w.v
+       let hu := h.sdiv h.norm
+       let s := Src.trs2keplerSrc w.p.norm w.v.norm h.norm hu.x hu.y hu.z (KepSrc.einsumRowSrc w.p w.v) GM w.p.x w.p.y w.p.z
+       (⟨s.1, s.2.1, s.2.2.1, s.2.2.2.1, KepSrc.omegaWrapMaskSrc s.2.2.2.2.1, s.2.2.2.2.2⟩ : Kep ℝ)) := by
+  rw [source_trs2kepler]
+  simp only [(source_einsum _ _).2, (source_omega_wrap _).2]
+
+/-- **`kepler2trs` of the model is the source, end to end** -/
+theorem source_kepler2trs_full (GM : ℝ) (k : Kep ℝ) :
+    kepler2trs GM k =
+      (let o := Src.kepler2trsOrbSrc k.a k.e k.E GM
+       KepSrc.assembleSrc (Src.kepler2trsPqwSrc R1 R3 k.Omega k.i k.omega) o.1 o.2) := by
+  rw [source_kepler2trs]
+  simp only [source_assemble]
+
 theorem source_anomalies (e E : ℝ) :
     Src.meanAnomalySrc e E = meanAnomaly e E ∧ Src.trueAnomalySrc e E = trueAnomaly e E := by
   refine ⟨?_, ?_⟩ <;> src_tie [Src.meanAnomalySrc, Src.trueAnomalySrc, meanAnomaly, trueAnomaly]
@@ -554,3 +592,8 @@ end Midgard.Props.C07
 #print axioms Midgard.Props.C07.kepler2trs_trs2kepler
 #print axioms Midgard.Props.C07.noncircular_iff
 #print axioms Midgard.Props.C07.kepler2trs_trs2kepler_of_dot_ne
+#print axioms Midgard.Props.C07.source_einsum
+#print axioms Midgard.Props.C07.source_omega_wrap
+#print axioms Midgard.Props.C07.source_assemble
+#print axioms Midgard.Props.C07.source_trs2kepler_full
+#print axioms Midgard.Props.C07.source_kepler2trs_full
